@@ -469,3 +469,6 @@ func (a *Abs) TRC(t *cppki.TRC, vset, sigset uint64) string {
 
 // TRCH is the handle of a TRC payload.
 func (a *Abs) TRCH(t *cppki.TRC) uint64 { return a.H('t', t.Raw) }
+
+// IARes prints the result of cppki's findIA on a name (Model/PKIChain.v ia_res).
+func IARes(n pkix.Name) string { return iaRes(n) }
